@@ -303,7 +303,7 @@ def sigkill_validation(ctx: Ctx, n_jobs: int, kills_per_job: int) -> None:
             want = {tuple(f["p"]): f["c"] for f in want_state["files"]}
             n_cmp += 1
             # digests of older versions cannot be resolved in the killed run (it never saw them): compare modulo them
-            diff = dsreal.diff_files(want, real_files)
+            diff = dsreal.diff_files(want, real_files, modulo_unknown=True)
             if not diff:
                 n_equal += 1
             else:
